@@ -172,6 +172,16 @@ func genHist(seed uint64, prop, tier string, audit bool, mode string) *Plan {
 		if !tomlOK(c.Text) {
 			c = CfgSpec{Class: "empty", Text: "", Via: "string"}
 		}
+		// C11: now and then a very long document - more than a mebibyte of commentary ahead of the sections
+		// (whatever bounds what it reads must say so, not act on the part it happened to read)
+		if prop == "C11" && (c.Class == "option" || c.Class == "illtyped") && g.Chance(0.04) {
+			pad := strings.Repeat("# "+strings.Repeat("commentary ", 9)+"\n", g.Range(10500, 13000))
+			c.Text = pad + c.Text
+			if c.TextWithoutIll != "" || c.Ill != "" {
+				c.TextWithoutIll = pad + c.TextWithoutIll
+			}
+			p.Knobs["long_document"] = true
+		}
 		// C11: some configurations arrive through a faulty transport
 		if prop == "C11" && !strings.Contains(mode, "nofault") && g.Chance(0.35) {
 			hg.addTransport(&c)
